@@ -3,4 +3,5 @@
 From TL Require Import Lib.Base Model.Dispatch.
 
 Definition dispatch_actual : quirks := {|
-  q_shebang_any_ext := true |}.
+  q_shebang_any_ext := true;
+  q_name_exemption_ext_case := true |}.
